@@ -177,8 +177,75 @@ def check_C05(tier, seed):
                    extra_cov={"fate_vectors_enumerated_by_tlc": len(vecs), "generator_states": gst})
 
 
+def cc_stage(tier, seed, r):
+    """Controller contract: TLC-enumerated call histories replayed into NewReno/Cubic/BBR."""
+    import subprocess, os, json as _j
+    quick = tier == "quick"
+    hists, gst = V.gen("SeqGen.tla", "SeqGen_cc3.cfg" if quick else "SeqGen_cc4.cfg", "C12cc")
+    ops = ["s", "a", "A", "z", "e", "l", "L", "p", "c", "m", "M", "u", "x", "t", "T"]
+    # longer seeded histories on top of the exhaustive short ones
+    for _ in range(2000 if quick else 60000):
+        hists.append([r.choice(ops) for _ in range(r.choice([6, 10, 16, 30]))])
+    d = V.workdir("run_C12cc")
+    shards = V.NPROC
+    per = (len(hists) + shards - 1) // shards
+    files = []
+    for k in range(shards):
+        chunk = hists[k * per:(k + 1) * per]
+        if not chunk:
+            continue
+        hf = os.path.join(d, "h%02d.ndjson" % k)
+        with open(hf, "w") as f:
+            for h in chunk:
+                f.write(_j.dumps(h) + "\n")
+        of = os.path.join(d, "cc%02d.ndjson" % k)
+        V.sh([V.QV, "cc", hf, of], 600)
+        files.append((of, k * per, chunk))
+    from concurrent.futures import ThreadPoolExecutor
+    with ThreadPoolExecutor(max_workers=8) as ex:
+        res = list(ex.map(lambda i: V.validate("ControllersTrace.tla", "ControllersTrace.cfg", files[i][0], "C12cc_%02d" % i), range(len(files))))
+    viol = []
+    lines = 0
+    for (of, first, chunk), rr in zip(files, res):
+        lines += rr["lines"]
+        for v in rr["violations"]:
+            run = int(v["run"][0]) if v["run"][0].isdigit() else 0
+            idx = run // 3 - 0
+            h = chunk[idx] if 0 <= idx < len(chunk) else None
+            viol.append({"clauses": v["clauses"], "script": {"cc_history": h, "controller": v["run"][1:]},
+                         "key": "cc%d" % (first * 3 + run), "detail": v})
+    if not os.environ.get("VERIF_KEEP"):
+        import shutil
+        shutil.rmtree(d, ignore_errors=True)
+    return viol, {"controller_histories": len(hists), "controller_trace_lines": lines,
+                  "controller_histories_exhaustive_len": 3 if quick else 4, "controller_generator_states": gst}
+
+
+def check_C12(tier, seed):
+    r = random.Random(seed * 7919 + 12)
+    quick = tier == "quick"
+    vecs, gst = V.gen("SeqGen.tla", "SeqGen_fates6.cfg", "C12")
+    n_vec = 500 if quick else 4096
+    n_rand = 900 if quick else 40000
+    scripts = [scen.recovery_script(r, i, fate_vec=v) for i, v in enumerate(sample(vecs, n_vec, r))]
+    scripts += [scen.recovery_script(r, len(scripts) + i) for i in range(n_rand)]
+    mcs = [("Recovery.tla", "MC_Recovery4.cfg" if quick else "MC_Recovery.cfg")]
+    mcs.append(("Controllers.tla", "MC_Controllers.cfg"))
+    ccv, cccov = cc_stage(tier, seed, r)
+    res = generic("C12", tier, seed, mcs, scripts,
+                   [("recovery", "RecoveryTrace.tla", "RecoveryTrace.cfg")],
+                   ["outstanding packets and in-flight counters are read through the verif-hooks probe before and after every call",
+                    "exemptions from the gate are recognised from the independent decoder's frame list (CONNECTION_CLOSE, PATH_CHALLENGE/RESPONSE, padded PING larger than the current MTU) and from the probe's loss_probes budget",
+                    "a run counts as clean when no datagram was dropped, duplicated, delayed, corrupted or injected and latency is constant"],
+                   extra_cov={"fate_vectors_enumerated_by_tlc": len(vecs), "generator_states": gst}, probe=2)
+    res["violations"] += ccv
+    res["coverage"].update(cccov)
+    return res
+
+
 REGISTRY = {
     "C01": check_C01,
+    "C12": check_C12,
     "C05": check_C05,
     "C04": check_C04,
     "C07": check_C07,
@@ -219,4 +286,8 @@ def replay_C05(scripts):
     return generic("C05", "quick", 0, [], scripts, [("flow", "FlowTrace.tla", "FlowTrace.cfg")], [], shards=1)
 
 
-REPLAY = {"C05": replay_C05, "C04": replay_C04, "C08": replay_C08, "C01": replay_C01, "C07": replay_C07}
+def replay_C12(scripts):
+    return generic("C12", "quick", 0, [], scripts, [("recovery", "RecoveryTrace.tla", "RecoveryTrace.cfg")], [], shards=1, probe=2)
+
+
+REPLAY = {"C12": replay_C12, "C05": replay_C05, "C04": replay_C04, "C08": replay_C08, "C01": replay_C01, "C07": replay_C07}
